@@ -120,22 +120,15 @@ func (a *Activation) writeBytes(st *State, arr, off Term, bs []Term, n Term) {
 func (a *Activation) appendSmall(st *State, s Term, bs []Term, n Term, pos token.Pos) Term {
 	g := a.g
 	n = g.define("apn", n)
-	newLen := g.define("apl", bvop("bvadd", sLen(s), n))
-	a.allocCheck(st, newLen, pos)
-	fits := g.define("fits", bvcmp("bvule", newLen, sCap(s)))
-	fresh := g.newObject(st, "append")
-	newCap := g.fresh("apcap", bvSort(64))
-	g.assertLine(and(bvcmp("bvuge", newCap, newLen), bvcmp("bvule", newCap, bv64(1<<40))), newCap)
-	resArr := g.define("apa", ite(fits, sArr(s), fresh))
-	resOff := g.define("apo", ite(fits, sOff(s), bv64(0)))
-	resCap := ite(fits, sCap(s), newCap)
+	resArr, resOff, newLen, resCap := a.appendPrep(st, s, n, pos)
 	if l, ok := constBV(sLen(s)); !ok || l != 0 {
-		a.memcpy(st, bvSort(8), fresh, bv64(0), sArr(s), sOff(s), ite(fits, bv64(0), sLen(s)))
+		a.memcpy(st, bvSort(8), resArr, resOff, sArr(s), sOff(s), sLen(s))
 	}
-	a.frameRangeCond(st, fits, sArr(s), bvop("bvadd", sOff(s), sLen(s)), n, pos)
 	a.writeBytes(st, resArr, bvop("bvadd", resOff, sLen(s)), bs, n)
 	res := mkSlice(resArr, resOff, newLen, resCap)
-	res = ite(and(eq(n, bv64(0)), eq(sArr(s), nilLoc)), s, res)
+	if c, ok := constBV(n); !ok || c == 0 {
+		res = ite(and(eq(n, bv64(0)), eq(sArr(s), nilLoc)), s, res)
+	}
 	return g.define("app", res)
 }
 
@@ -316,12 +309,58 @@ func (a *Activation) stdlibCall(st *State, callee *ssa.Function, cc *ssa.CallCom
 		mark()
 		g.trusted["sort.Slice/sort.Ints/...: reorder the argument slice in place (elements become unconstrained; sortedness and permutation are NOT assumed); nothing else is modified"] = true
 		a.frameRange(st, sArr(sl), sOff(sl), sLen(sl), pos)
+		hBefore := g.define("Hsb", g.heap(st, bvSort(64)))
 		a.havocElems(st, elemT, sl)
+		if name == "sort.Ints" {
+			// sort.Ints: the result is non-decreasing and is a permutation of the input,
+			// given by a bijection pi (with inverse rho) on the index range
+			g.nfresh++
+			pi, rho := fmt.Sprintf("perm_%d", g.nfresh), fmt.Sprintf("perminv_%d", g.nfresh)
+			g.declareFun(pi, []string{bvSort(64)}, bvSort(64))
+			g.declareFun(rho, []string{bvSort(64)}, bvSort(64))
+			hAfter := g.define("Hsa", g.heap(st, bvSort(64)))
+			slN := g.define("srt", sl)
+			at := func(h Term, i string) string {
+				return fmt.Sprintf("(select %s (elem (s_arr %s) (bvadd (s_off %s) %s)))", h.S, slN.S, slN.S, i)
+			}
+			n := "(s_len " + slN.S + ")"
+			inr := func(i string) string { return fmt.Sprintf("(and (bvsle #x0000000000000000 %s) (bvslt %s %s))", i, i, n) }
+			g.quantified = true
+			g.assume(st, and(
+				T(SBool, fmt.Sprintf("(forall ((i (_ BitVec 64))) (! (=> %s (and %s (= %s %s))) :pattern (%s)))", inr("i"), inr("("+pi+" i)"), at(hAfter, "i"), at(hBefore, "("+pi+" i)"), at(hAfter, "i"))),
+				T(SBool, fmt.Sprintf("(forall ((j (_ BitVec 64))) (! (=> %s (and %s (= (%s (%s j)) j))) :pattern (%s)))", inr("j"), inr("("+rho+" j)"), pi, rho, at(hBefore, "j"))),
+				T(SBool, fmt.Sprintf("(forall ((i (_ BitVec 64)) (j (_ BitVec 64))) (! (=> (and %s %s (not (= i j))) (not (= (%s i) (%s j)))) :pattern ((%s i) (%s j))))", inr("i"), inr("j"), pi, pi, pi, pi)),
+				T(SBool, fmt.Sprintf("(forall ((i (_ BitVec 64)) (j (_ BitVec 64))) (! (=> (and %s %s (bvsle i j)) (bvsle %s %s)) :pattern (%s %s)))", inr("i"), inr("j"), at(hAfter, "i"), at(hAfter, "j"), at(hAfter, "i"), at(hAfter, "j")))))
+			// consequence of "sorted permutation", stated explicitly because it needs a case
+			// split on the permutation that E-matching finds slowly: distinct inputs give a
+			// strictly increasing output
+			g.assume(st, T(SBool, fmt.Sprintf("(=> (forall ((i (_ BitVec 64)) (j (_ BitVec 64))) (! (=> (and %s %s (bvslt i j)) (not (= %s %s))) :pattern (%s %s))) (forall ((i (_ BitVec 64)) (j (_ BitVec 64))) (! (=> (and %s %s (bvslt i j)) (bvslt %s %s)) :pattern (%s %s))))",
+				inr("i"), inr("j"), at(hBefore, "i"), at(hBefore, "j"), at(hBefore, "i"), at(hBefore, "j"),
+				inr("i"), inr("j"), at(hAfter, "i"), at(hAfter, "j"), at(hAfter, "i"), at(hAfter, "j"))))
+			g.trusted["sort.Ints: result is non-decreasing and a permutation of the input (explicit bijection); pairwise distinct input gives strictly increasing output"] = true
+		}
 		return Val{}, true
 	case "strconv.Atoi", "strconv.ParseInt", "strconv.ParseUint":
 		mark()
 		g.trusted["strconv.Atoi/ParseInt: uninterpreted (any integer result, any error); only totality is assumed"] = true
 		return a.havocValue(st, resT, "atoi"), true
+	case "strings.TrimSpace", "strings.ToLower", "strings.ToUpper":
+		mark()
+		fn := "str_" + strings.ToLower(callee.Name())
+		g.useByteSeq()
+		g.declareFun(fn, []string{SBSeq}, SBSeq)
+		g.trusted["strings.TrimSpace/ToLower/ToUpper/Contains/HasPrefix/EqualFold: uninterpreted functions of the string contents (TrimSpace result is no longer than its argument)"] = true
+		r := g.fresh("strres", SSlice)
+		g.closed(st, r, types.Typ[types.String])
+		g.assume(st, and(eq(g.absBytes(st, r), app(SBSeq, fn, g.absBytes(st, args[0].T))), bvcmp("bvule", sLen(r), sLen(args[0].T))))
+		return Val{T: r}, true
+	case "strings.Contains", "strings.HasPrefix", "strings.HasSuffix", "strings.EqualFold":
+		mark()
+		fn := "str_" + strings.ToLower(callee.Name())
+		g.useByteSeq()
+		g.declareFun(fn, []string{SBSeq, SBSeq}, SBool)
+		g.trusted["strings.TrimSpace/ToLower/ToUpper/Contains/HasPrefix/EqualFold: uninterpreted functions of the string contents (TrimSpace result is no longer than its argument)"] = true
+		return Val{T: app(SBool, fn, g.absBytes(st, args[0].T), g.absBytes(st, args[1].T))}, true
 	case "strings.Fields":
 		mark()
 		g.trusted["strings.Fields: result has at most len(s) fields, each no longer than s; contents uninterpreted"] = true
